@@ -56,7 +56,22 @@ func genC17Program(t *rapid.T, client int, uuidBase *int, children []string) []*
 		*uuidBase++
 		logOp := kit.Op{Op: "insert", Table: "Log", UUID: kit.MkUUID(*uuidBase), Row: kit.Row{"tag": kit.Scalar(kit.Str(tag)), "client": kit.Scalar(kit.Int(int64(client)))}}
 		tx := &c17Txn{Tag: tag, Client: client, Seq: i}
-		switch rapid.SampledFrom([]string{"incr", "incr", "insert-if-absent", "insert-if-absent", "move", "cas"}).Draw(t, "kind") {
+		switch rapid.SampledFrom([]string{"incr", "incr", "insert-if-absent", "insert-if-absent", "move", "cas", "detach", "detach+claim"}).Draw(t, "kind") {
+		case "detach", "detach+claim":
+			// a child leaves a parent (when no parent holds it any more it is garbage collected);
+			// the second form also claims a contested key: when that fails nothing may remain of
+			// the detachment either
+			ch := rapid.SampledFrom(children).Draw(t, "child")
+			from := rapid.SampledFrom([]string{"p1", "p2"}).Draw(t, "from")
+			tx.Kind = "detach"
+			tx.Ops = []kit.Op{{Op: "mutate", Table: "Parent", Where: []kit.Cond{eqStr("name", from)}, Mutations: []kit.Mut{{Col: "kids", Mutator: "delete", Val: kit.SetOf(kit.UUID(ch))}}}}
+			if rapid.Bool().Draw(t, "claim") {
+				tx.Kind = "detach+claim"
+				*uuidBase++
+				k := rapid.SampledFrom([]string{"k1", "k2", "k3", "k4"}).Draw(t, "key")
+				tx.Ops = append(tx.Ops, kit.Op{Op: "insert", Table: "Item", UUID: kit.MkUUID(*uuidBase), Row: kit.Row{"key": kit.Scalar(kit.Str(k)), "owner": kit.Scalar(kit.Int(int64(client)))}})
+			}
+			tx.Ops = append(tx.Ops, logOp)
 		case "incr":
 			tx.Kind = "incr"
 			d := rapid.IntRange(1, 3).Draw(t, "delta")
@@ -141,6 +156,19 @@ func TestC17(t *testing.T) {
 		}
 		if res, err := kit.TransactOps(bg, w, setup, initOps); err != nil || len(res) != len(initOps) {
 			t.Fatalf("init: %v %v", res, err)
+		}
+		// some children belong to both parents from the start (second transaction: p2 becomes
+		// their second referrer)
+		var shared []kit.Atom
+		for _, ch := range children {
+			if rapid.Bool().Draw(t, "sharedchild") {
+				shared = append(shared, kit.UUID(ch))
+			}
+		}
+		if len(shared) > 0 {
+			if res, err := kit.TransactOps(bg, w, setup, []kit.Op{{Op: "update", Table: "Parent", Where: []kit.Cond{eqStr("name", "p2")}, Row: kit.Row{"kids": kit.SetOf(shared...)}}}); err != nil || len(res) != 1 || res[0].Error != "" {
+				t.Fatalf("init: %v %v", res, err)
+			}
 		}
 		initial, err := srv.Snapshot()
 		if err != nil {
@@ -387,6 +415,8 @@ func TestC17(t *testing.T) {
 				sum[tx.Ops[0].Where[0].Val.K[0].S] += tx.Ops[0].Mutations[0].Val.K[0].I
 			case "insert-if-absent":
 				winners[tx.Ops[0].Row["key"].K[0].S]++
+			case "detach+claim":
+				winners[tx.Ops[1].Row["key"].K[0].S]++
 			case "cas":
 				casOK++
 				sum["a"] = tx.Ops[1].Row["value"].K[0].I
@@ -403,6 +433,9 @@ func TestC17(t *testing.T) {
 			for _, tx := range prog {
 				if tx.Kind == "insert-if-absent" {
 					attempted[tx.Ops[0].Row["key"].K[0].S]++
+				}
+				if tx.Kind == "detach+claim" {
+					attempted[tx.Ops[1].Row["key"].K[0].S]++
 				}
 			}
 		}
